@@ -665,8 +665,9 @@ class Walk:
                 for v in pv:
                     if v is not None and v[0] == core[1] and not v[4]:
                         purged.add((v[0], v[1]))
-                for i, v in enumerate(pv):
-                    if v is not None and v[0] == core[1]:
+                for i, v in enumerate(st['slots']):
+                    # only instances the cache still knows are reached by expireAll (an earlier expire() purged the entry)
+                    if v is not None and v[0] == core[1] and v[4]:
                         tainted.discard((v[0], v[1]))
             if t == 'sync' and ok and core[1] < len(pv) and pv[core[1]] is not None:
                 tainted.discard((pv[core[1]][0], pv[core[1]][1]))
@@ -674,7 +675,7 @@ class Walk:
                 destroyed.add((pv[core[1]][0], pv[core[1]][1]))
             if t in ('rawupdate', 'rawdelete'):
                 tainted.add((core[1], core[2]))      # the row was changed behind the library's back
-                if t == 'rawdelete':
+                if t == 'rawdelete' and row_of(prev, core[1], core[2]) is not None:
                     gone.add((core[1], core[2]))     # ... for good: writes to it silently match no row
             if t == 'clear':
                 for v in pv:
